@@ -28,6 +28,11 @@ ignore_convert_errors), raw() - followed by the strict look-up (raw and resolved
 each strict answer is judged by the same predicates and compared with the same models, which read the ORIGINAL
 document; each answer of the sequence must also equal the answer of the same call on a fresh object.
 
+REPLICATION: documents whose component under test replicates (workflowAttributes.replicate / aggregate as references to
+variables that several layers define differently) are driven through replicate() / FlowIRExperimentConfiguration(
+primitive=False): number of replicas and the resolved options judged against the documented order and compared with
+coq/Conf/Replicate.v (repl_count / repl_aggregate, check_replicate).
+
 Not covered (never generated): array-index expansion (`[`), the `interpreter` rewrite, memory/qos converters,
 float literals inside strings."""
 import copy
@@ -66,6 +71,10 @@ ASSUMPTIONS = [
     'sessions: the answers of the calls with unusual options (inject_missing_fields=False, include_default=False, '
     'is_primitive, instance(), raw()) are not modelled: they are only required to be the same on a used and on a '
     'fresh object; the strict look-ups that follow them are compared with the model of the original document',
+    'replication: the sections of variables hold scalars only, so override_object of apply_replicate is modelled as '
+    'dict.update; only whether replicate() raises is compared, not which exception; on the FlowIRExperimentConfiguration '
+    'route (validate=False: the constructor keeps its errors) a failed replicate() is recognised by the configuration '
+    'still holding all platforms of the package; a replica whose other options do not resolve is only counted',
 ]
 HEADER = 'Require Import V.Lib.JTree V.Conf.Model V.Conf.Rescan V.Conf.Instance.\nOpen Scope string_scope.'
 CHECKER = 'check_case_both'
@@ -1281,8 +1290,333 @@ def _explore_sessions(ctx, sessions):
                      'Conf.Model.resolve_raw / resolve / Conf.Rescan.resolve_rs on the original document')
 
 
+# ------------------------------------------------------------------ replication: workflowAttributes.replicate / aggregate
+# FlowIRConcrete.replicate() (every non-primitive experiment) resolves the typed options workflowAttributes.replicate
+# and workflowAttributes.aggregate in FlowIR.apply_replicate, with a dictionary of visible variables that it layers on
+# its own (global < stage < component of the instance).  The documents above never set these two options, so that code
+# decided nothing.  Here the component under test REPLICATES: workflowAttributes.replicate is a number or a reference
+# (direct, or through a link variable) to a variable `rn` that up to 15 layers define with different numbers, given by
+# the component and/or its overrides; a consumer `col` of c in the same stage aggregates or not, depending on a variable
+# `ag` layered the same way.  Observed: how many replicas replicate() / the non-primitive experiment configuration
+# generates for c and for col, and the value of workflowAttributes.replicate / aggregate that each of them resolves to.
+CHECKER_REPL = 'check_replicate'
+HEADER_REPL = ('Require Import V.Lib.JTree V.Conf.Model V.Conf.Rescan V.Conf.Instance V.Conf.Replicate.\n'
+               'Open Scope string_scope.')
+REPL_CORPUS = os.path.join(CORPUS, 'replicate')
+REPL_ROUTES = ('replicate_active_platform', 'replicate_explicit_platform_on_other_object',
+               'configurationForExperiment_primitive_False')
+
+
+def repl_slot(case, files, layer, comp):
+    """the variable dictionary of a layer tag, for the stage of the component under test (`comp`: c or col)"""
+    doc, st = case['doc'], case['stage']
+    vs = doc.setdefault('variables', {})
+    plat = {'d': 'default', 'p': 'p', 'q': 'q'}
+    if layer in ('dg', 'pg', 'qg'):
+        return vs.setdefault(plat[layer[0]], {}).setdefault('global', {})
+    if layer in ('ds', 'ps', 'qs', 'ds1'):
+        sec = vs.setdefault(plat[layer[0]], {})
+        sec.setdefault('global', {})
+        return sec.setdefault('stages', {}).setdefault((1 - st) if layer.endswith('1') else st, {})
+    if layer == 'cv':
+        return comp.setdefault('variables', {})
+    if layer in ('ovd', 'ovp', 'ovq'):
+        return comp.setdefault('override', {}).setdefault(plat[layer[2]], {}).setdefault('variables', {})
+    if layer == 'ug':
+        return files[0].setdefault('global', {})
+    if layer == 'us':
+        return files[0].setdefault('stages', {}).setdefault(st, {})
+    if layer == 'us1':
+        return files[0].setdefault('stages', {}).setdefault(1 - st, {})
+    if layer == 'ug2':
+        return files[1].setdefault('global', {})
+    raise ValueError(layer)
+
+
+def gen_repl_case(rng):
+    while True:
+        case = gen_case(rng, dens=rng.choice([0.15, 0.15, 0.3]))
+        if case['inj'] in ('none', 'undef'):
+            break
+    doc, st = case['doc'], case['stage']
+    comp = [c for c in doc['components'] if c['name'] == 'c'][0]
+    col = {'name': 'col', 'stage': st, 'command': {'executable': 'cat', 'arguments': 'c:ref'}, 'references': ['c:ref']}
+    doc['components'].append(col)
+    doc['components'].sort(key=lambda c: c['stage'])
+    files = (case['files'] + [{}, {}])[:2]
+    # ---- rn: the number of replicas, a different number in every layer that defines it
+    numbers = list(range(1, 7)) + list(range(1, 7)) + list(range(1, 7))
+    rng.shuffle(numbers)
+    dens = rng.choice([0.2, 0.35, 0.5])
+    defined = []
+    for layer in VAR_LAYERS:
+        if rng.random() < dens:
+            n = numbers.pop()
+            repl_slot(case, files, layer, comp)['rn'] = n if rng.random() < 0.8 else str(n)
+            defined.append(layer)
+    # (the pair the check is about is frequent: the component, or its override, AND a lower layer define it)
+    if rng.random() < 0.5:
+        for layer in (rng.choice(['cv', 'cv', 'ovp', 'ovd']), rng.choice(['ds', 'ps', 'us', 'ug', 'ug2', 'pg', 'dg'])):
+            if layer not in defined:
+                repl_slot(case, files, layer, comp)['rn'] = numbers.pop()
+                defined.append(layer)
+    # ---- rk: a link to rn (a chain of two references), in the component or (less often) below it
+    link = rng.random() < 0.45
+    if link:
+        for layer in rng.sample(['cv', 'cv', 'ovp', 'us', 'ps', 'ds', 'dg', 'ug'], rng.choice([1, 1, 2])):
+            repl_slot(case, files, layer, comp)['rk'] = '%(rn)s'
+    text = lambda: rng.choice(['%(rk)s'] * 3 + ['%(rn)s'] if link else ['%(rn)s'] * 4 + [rng.randrange(0, 5), '3'])
+    wa = comp.setdefault('workflowAttributes', {})
+    if not isinstance(wa, dict):
+        wa = comp['workflowAttributes'] = {}
+    r = rng.random()
+    if r < 0.85:
+        wa['replicate'] = text()
+    for P in PLATS:
+        if rng.random() < (0.25 if r < 0.85 else 0.6):
+            put(comp.setdefault('override', {}).setdefault(P, {}), ('workflowAttributes', 'replicate'), text())
+    # the same variable in an ordinary option of c: every replica must read the same value there
+    put(comp, ('command', 'arguments'), 'copy of %(rn)s')
+    # ---- ag: whether col aggregates the replicas of c
+    bools = [True, False, 'yes', 'no', 'true', 'False', 'y', 'N']
+    for layer in VAR_LAYERS:
+        if rng.random() < dens * 0.7:
+            repl_slot(case, files, layer, col)['ag'] = rng.choice(bools)
+    repl_slot(case, files, 'dg', col).setdefault('ag', rng.choice(bools))
+    if rng.random() < 0.5:
+        repl_slot(case, files, rng.choice(['cv', 'ovp', 'ovd']), col)['ag'] = rng.choice(bools)
+    r = rng.random()
+    if r < 0.8:
+        col['workflowAttributes'] = {'aggregate': rng.choice(['%(ag)s', '%(ag)s', '%(ag)s', True, False, 'yes'])}
+    if r > 0.7:
+        put(col.setdefault('override', {}).setdefault(rng.choice(PLATS), {}), ('workflowAttributes', 'aggregate'),
+            rng.choice(['%(ag)s', True, False]))
+    for c in (comp, col):
+        if 'override' in c:
+            prune(c['override'])
+            if not c['override']:
+                del c['override']
+    case['files'] = [f for f in (prune(f) for f in files) if f]
+    case['col'] = 'col'
+    return case
+
+
+def repl_corpus():
+    out = []
+    for p in sorted(glob.glob(os.path.join(REPL_CORPUS, '*.json'))):
+        c = fix_stage_keys(json.load(open(p)))
+        c.setdefault('inj', 'corpus')
+        c.setdefault('files', [])
+        c.setdefault('col', 'col')
+        c['corpus'] = os.path.basename(p)
+        out.append(c)
+    return out
+
+
+def documented_value(case, name, text):
+    """independent reading: the text resolved with the variables of (platform, stage, component `name`) layered in
+    the documented order; ('ok', value) | ('undef',)"""
+    want = {}
+    for _sc, layer in documented_order(dict(case, name=name)):
+        want.update(layer)
+
+    def res(t, depth):
+        if not isinstance(t, str):
+            return t
+        if depth > 12:
+            raise KeyError('cycle')
+        return VAR_RE.sub(lambda m: str(res(want[m.group(1)], depth + 1)), t)
+    try:
+        if isinstance(text, str) and VAR_RE.fullmatch(text):
+            return ('ok', res(want[VAR_RE.fullmatch(text).group(1)], 1))
+        return ('ok', res(text, 0))
+    except KeyError:
+        return ('undef',)
+
+
+def documented_option(case, name, key):
+    """workflowAttributes.<key> of the component by the documented order of the OPTION layers (only the component and
+    its override for the platform give it in these documents)"""
+    comp = [c for c in case['doc']['components'] if c['name'] == name and c['stage'] == case['stage']][0]
+    v = get(comp, ('workflowAttributes', key))
+    o = get(comp, ('override', case['platform'], 'workflowAttributes', key))
+    return o if o is not None else v
+
+
+def to_int(v):
+    if isinstance(v, float):
+        raise ValueError(v)
+    return int(v)
+
+
+def to_bool(v):
+    if isinstance(v, bool):
+        return v
+    return {'true': True, 'false': False, 'y': True, 'n': False, 'yes': True, 'no': False}[v.lower()]
+
+
+def replicate_route(impl, case):
+    """(route, ('ok', replicated FlowIRConcrete) | ('err', class, detail))"""
+    F, C = impl.F, impl.C
+    P = case['platform']
+    h = case.get('route', case_hash(case) // 11 % 3)
+    how = REPL_ROUTES[h]
+    try:
+        if h == 0:
+            inst = impl.concrete(case).replicate(ignore_errors=True)
+            return how, ('ok', F.FlowIRConcrete(inst, 'default', {}))
+        if h == 1:
+            others = [q for q in PLATS if q != P]
+            inst = impl.concrete(case, active=others[case_hash(case) % 2]).replicate(platform=P, ignore_errors=True)
+            return how, ('ok', F.FlowIRConcrete(inst, 'default', {}))
+        impl.k += 1
+        paths = []
+        for i, uf in enumerate(case['files']):
+            p = os.path.join(impl.tmp, 'rvars_%d_%d.yaml' % (impl.k, i))
+            with open(p, 'w') as fh:
+                F.yaml_dump(uf, fh)
+            paths.append(p)
+        try:
+            conf = C.FlowIRExperimentConfiguration(
+                path=None, platform=P, variable_files=paths, system_vars=None, is_instance=False,
+                createInstanceFiles=False, primitive=False, concrete=F.FlowIRConcrete(copy.deepcopy(case['doc']), P, {}),
+                updateInstanceFiles=False, validate=False)
+        finally:
+            for p in paths:
+                os.remove(p)
+        rc = conf.get_flowir_concrete(return_copy=False)
+        # (without validation the constructor keeps the errors to itself: when replicate() failed the configuration
+        #  still holds the package - three platforms - and not the instance of the platform)
+        if sorted(rc.raw().get('platforms') or []) not in (['default'], sorted(set(['default', P]))):
+            return how, ('err', 'NotReplicated', '')
+        return how, ('ok', rc)
+    except Exception as e:
+        return how, _err_of(e)
+
+
+def replicate_observe(concrete, case):
+    """what was generated for c and col: (number of replicas (0 = kept as it is), resolved workflowAttributes.replicate
+    of the replicas, what %(rn)s resolved to in their arguments), (number of replicas of col, resolved aggregate)"""
+    st = case['stage']
+    names = sorted(n for (s, n) in concrete.get_component_identifiers(True) if s == st)
+    out = []
+    for base, key in (('c', 'replicate'), (case['col'], 'aggregate')):
+        reps = [n for n in names if re.fullmatch(re.escape(base) + r'\d+', n)]
+        if (base in names) == bool(reps):
+            return ('err', 'BadReplication', 'components of the stage: %s' % names)
+        vals, args = [], []
+        for n in (reps or [base]):
+            try:
+                conf = concrete.get_component_configuration((st, n), raw=False, include_default=True)
+                v = get(conf, ('workflowAttributes', key))
+                a = get(conf, ('command', 'arguments'))
+            except Exception as e:
+                # (a replica that does not resolve - an undefined reference in some other option: the ordinary cases
+                #  judge that; here only the number of replicas is)
+                v = a = '!' + type(e).__name__
+            if [v, type(v).__name__] not in vals:
+                vals.append([v, type(v).__name__])
+            if a not in args:
+                args.append(a)
+        out.append((len(reps), vals, args))
+    return ('ok', out[0], out[1])
+
+
+def _explore_replicas(ctx, cases):
+    impl = Impl()
+    terms, kept = [], []
+    try:
+        dflt = impl.dflt()
+        for case in cases:
+            st, P = case['stage'], case['platform']
+            rep = {'platform': P, 'doc': case['doc'], 'files': case['files'], 'stage': st, 'name': 'c',
+                   'col': case['col'], 'inj': case.get('inj'), 'replicate': True}
+            how, got = replicate_route(impl, case)
+            rep['route'] = REPL_ROUTES.index(how)
+            obs = replicate_observe(got[1], case) if got[0] == 'ok' else got
+            ctx.count('replicate_route_' + how)
+            # ---- the documented reading
+            closed = scope_closed(case) and scope_closed(dict(case, name=case['col']))
+            rtext, atext = documented_option(case, 'c', 'replicate'), documented_option(case, case['col'], 'aggregate')
+            wantn = ('ok', None) if rtext is None else documented_value(case, 'c', rtext)
+            wanta = ('ok', False) if atext is None else documented_value(case, case['col'], atext)
+            try:
+                N = None if wantn[0] != 'ok' else (0 if wantn[1] is None else to_int(wantn[1]))
+            except Exception:
+                N = None
+            try:
+                A = None if wanta[0] != 'ok' else to_bool(wanta[1])
+            except Exception:
+                A = None
+            wr = documented_value(case, 'c', '%(rn)s')
+            vs = var_scopes(case)
+            lower = any('rn' in l for l in vs[0] + vs[1])
+            own = any('rn' in l for l in vs[2])
+            ctx.count('replicate_variable_defined=%s' % ('component_and_below' if own and lower else 'component_only'
+                                                         if own else 'below_component' if lower else 'nowhere'))
+            ctx.count('replicate_scope_closed=%s' % closed)
+            ctx.count('replicate_outcome=' + ('ok' if obs[0] == 'ok' else obs[1]))
+            ctx.count('replicate_documented_replicas=%s' % ('unresolvable' if N is None else min(N, 6)))
+            ctx.case(['replicate', P, case['doc'], case['files']], own and lower and N is not None)
+            cls = classes_of(case)
+            if closed and obs[0] == 'ok':
+                (nc, cvals, cargs), (ncol, avals, _aargs) = obs[1], obs[2]
+                if wantn[0] == 'undef':
+                    ctx.fail(rep, 'workflowAttributes.replicate references an undefined variable and replicate() reports '
+                                  'nothing', cls)
+                elif N is not None:
+                    k = N if N > 0 else 0
+                    if nc != k:
+                        ctx.fail(rep, 'replicate() generates %d replicas of the component, the documented layering gives '
+                                      'workflowAttributes.replicate = %r' % (nc, N), cls)
+                    elif k and cvals != [[N, 'int']] and not str(cvals[0][0]).startswith('!'):
+                        ctx.fail(rep, 'workflowAttributes.replicate of the replicas resolves to %r, the documented layering '
+                                      'gives %r' % (cvals, N), cls)
+                    elif wr[0] == 'ok' and [a for a in cargs if str(a).startswith('copy of ')] not in (
+                            [], ['copy of %s' % (wr[1],)]):
+                        ctx.fail(rep, 'the replicas do not resolve the variable in their arguments to the documented '
+                                      'value: %r' % (cargs,), cls)
+                    if A is not None and nc == k:
+                        if ncol != (0 if A else k):
+                            ctx.fail(rep, 'the consumer of the replicas is generated %d times, the documented layering '
+                                          'gives workflowAttributes.aggregate = %r and %d producers' % (ncol, A, k), cls)
+                        elif k and A and avals != [[True, 'bool']] and not str(avals[0][0]).startswith('!'):
+                            ctx.fail(rep, 'workflowAttributes.aggregate of the aggregating component resolves to %r' % (avals,), cls)
+                if wanta[0] == 'undef' and wantn[0] == 'ok':
+                    ctx.fail(rep, 'workflowAttributes.aggregate references an undefined variable and replicate() reports '
+                                  'nothing', cls)
+            elif closed and case.get('inj') in ('none', 'corpus') and N is not None and A is not None:
+                ctx.fail(rep, 'replicate() fails (%s %s) although the documented layering resolves workflowAttributes.'
+                              'replicate to %r and aggregate to %r' % (obs[1], obs[2], N, A), cls)
+            doc = case['doc']
+            i = '(%s, (%s, %s, %s), %s, %s, %s, %s)' % (
+                'DFLT', cjv(doc.get('blueprint', {})), cjv(doc.get('variables', {})), clist(doc['components'], cjv),
+                clist(case['files'], cjv), cstr(P), cZ(st), cstr('c'))
+            o = ('(inl (%s, %s))' % (cZ(obs[1][0]), cZ(obs[2][0])) if obs[0] == 'ok'
+                 else '(inr (%s, %s))' % (cstr(obs[1]), cstr(str(obs[2])[:80])))
+            terms.append('((%s, %s, %s) : case_in * string * repl_outcome)' % (i, cstr(case['col']), o))
+            kept.append((rep, obs))
+    finally:
+        impl.close()
+    header = HEADER_REPL + '\nDefinition DFLT : jv := %s.' % cjv(dflt)
+    bad = ctx.model_mismatches(header, terms, CHECKER_REPL, chunk=40, name='model_repl')
+    for k, i in enumerate(bad):
+        rep, obs = kept[i]
+        model = ''
+        if k < 2:
+            model = ctx.model_eval(header, 'let \'(dflt, (b, v, cs), files, p, stage, name) := fst (fst %s) in '
+                                   'let d := {| d_blueprint := b; d_variables := v; d_components := cs |} in '
+                                   'match user_vars files, find_comp d stage name, find_comp d stage "col" with '
+                                   'Some u, Some c, Some k => Some (repl_count rs_extra dflt d u p stage c, '
+                                   'repl_aggregate rs_extra dflt d u p stage k, inst_must_fail dflt d u p, '
+                                   'inst_may_fail d u p) | _, _, _ => None end' % terms[i])[-1500:]
+        ctx.disagree(rep, list(obs), model,
+                     'C04 FlowIRConcrete.replicate (replicas generated for workflowAttributes.replicate / aggregate) vs '
+                     'Conf.Replicate.repl_count / repl_aggregate')
+
+
 # ------------------------------------------------------------------ FlowIR.interpolate on its own (re-scanning)
-FRAGS = ['%', '%(', ')s', '(', ')', 's', 'a', 'b', 'c', 'd', 'zz', ' ', '-', 'x', '%(a)s', '%(b)s', '%(c)s', '%(d)s',
+FRAGS =['%', '%(', ')s', '(', ')', 's', 'a', 'b', 'c', 'd', 'zz', ' ', '-', 'x', '%(a)s', '%(b)s', '%(c)s', '%(d)s',
          '%(zz)s', '%(flow.x)s', '%(a)', '%%', '%(b', 'a)s', 'c)s', '%(d)s)s']
 SNAMES = ['a', 'b', 'c', 'd']
 
@@ -1403,7 +1737,7 @@ def run(ctx):
                 'depth 5, one injected fault in ~29% of cases (undefined reference 15%, cycle, incomplete, shape clash, '
                 'bad typed text, dotted name, invalid variable value, 4%: a variable holding % or %( completes a new reference during substitution); plus every define/omit pattern of one option and '
                 'one variable over 8 layers (256 cases) and the corpus; non-trivial = some option or variable is '
-                'defined by >= 2 layers of the selected platform; distinct by (platform, document, files); every case is asked in one of four ways (active platform, explicit platform on an object of another platform, after a primitive resolution, after resolving and then putting one variable definition back through set_platform_global/stage_variable) and ALSO resolved through instance()/replicate() (four entry-point variants, ignore_errors=True) and, for the corpus and 1 case in 6, through ExperimentConfigurationFactory.configurationForExperiment(primitive=False) on a scratch package; plus 500 (thorough 4000) direct calls of FlowIR.interpolate on variables a..d and a string built from fragments of the reference syntax (%, %(, )s, names, complete/incomplete/dotted references); plus 110 (thorough 800) generated SESSIONS and 5 fixed ones on ONE FlowIRConcrete object (document as above plus a sibling component with its own definition/variables/overrides in the stage of the component under test, density 0.3/0.5 so that default, p and q all have stage-level blueprints): 1-3 calls out of instance()/replicate() of a random platform (inject_missing_fields=False 50%, is_primitive 30%, fill_in_all 20%), raw(), get_component_configuration of c / sib / the component of the other stage on a random platform with at least one unusual option (raw, include_default=False, is_primitive, inject_missing_fields=False, ignore_convert_errors), then the strict look-up, raw and resolved, for 3 of the 6 (platform, component) pairs; non-trivial = the question differs from the last call in platform or component and the stage has a blueprint')
+                'defined by >= 2 layers of the selected platform; distinct by (platform, document, files); every case is asked in one of four ways (active platform, explicit platform on an object of another platform, after a primitive resolution, after resolving and then putting one variable definition back through set_platform_global/stage_variable) and ALSO resolved through instance()/replicate() (four entry-point variants, ignore_errors=True) and, for the corpus and 1 case in 6, through ExperimentConfigurationFactory.configurationForExperiment(primitive=False) on a scratch package; plus 500 (thorough 4000) direct calls of FlowIR.interpolate on variables a..d and a string built from fragments of the reference syntax (%, %(, )s, names, complete/incomplete/dotted references); plus 110 (thorough 800) generated SESSIONS and 5 fixed ones on ONE FlowIRConcrete object (document as above plus a sibling component with its own definition/variables/overrides in the stage of the component under test, density 0.3/0.5 so that default, p and q all have stage-level blueprints): 1-3 calls out of instance()/replicate() of a random platform (inject_missing_fields=False 50%, is_primitive 30%, fill_in_all 20%), raw(), get_component_configuration of c / sib / the component of the other stage on a random platform with at least one unusual option (raw, include_default=False, is_primitive, inject_missing_fields=False, ignore_convert_errors), then the strict look-up, raw and resolved, for 3 of the 6 (platform, component) pairs; non-trivial = the question differs from the last call in platform or component and the stage has a blueprint; plus 150 (thorough 1200) generated REPLICATION cases and 3 fixed ones: a document as above (density 0.15/0.3, fault none or an undefined reference) whose component c carries workflowAttributes.replicate (85% in the component, 25-60% per platform override) as %(rn)s, %(rk)s with rk = %(rn)s defined in 1-2 of 8 layers (45%), or a literal; rn defined with a different number by each of the 15 variable layers independently (density 0.2/0.35/0.5) and in 50% forced into the component or an override AND a stage / user / global layer; a consumer col of c in the stage with workflowAttributes.aggregate %(ag)s or a literal, ag layered likewise; driven through replicate() on the active platform, replicate(platform) on an object of another platform or FlowIRExperimentConfiguration(primitive=False, variable_files) (by hash); non-trivial = rn is defined by the component (or its override) and by a lower layer and the documented number of replicas is computable')
     rng = ctx.rng
     n = 900 if ctx.tier == 'quick' else 6000
     cases = corpus_cases()
@@ -1411,19 +1745,31 @@ def run(ctx):
     ctx.count('exhaustive_one_option_cases', 256)
     for _ in range(n):
         cases.append(gen_case(rng))
-    _explore(ctx, cases)
+    # (development aid: VERIF_C04_ONLY=replicate explores the last family alone; the inputs drawn are the same)
+    only = os.environ.get('VERIF_C04_ONLY')
+    if only:
+        _explore_x, _explore_strings_x, _explore_sessions_x = (lambda *a: None,) * 3
+    else:
+        _explore_x, _explore_strings_x, _explore_sessions_x = _explore, _explore_strings, _explore_sessions
+    _explore_x(ctx, cases)
     ctx.count('cases', len(cases))
     pairs = list(STRING_CORPUS)
     for _ in range(500 if ctx.tier == 'quick' else 4000):
         pairs.append(gen_string_case(rng))
-    _explore_strings(ctx, pairs)
+    _explore_strings_x(ctx, pairs)
     ctx.count('interpolate_cases', len(pairs))
     # (generated last: the documents and strings above are the same as before the sessions were added)
     sessions = session_corpus()
     for _ in range(110 if ctx.tier == 'quick' else 800):
         sessions.append(gen_session(rng))
-    _explore_sessions(ctx, sessions)
+    _explore_sessions_x(ctx, sessions)
     ctx.count('sessions', len(sessions))
+    # (generated after everything else: the input streams above are unchanged)
+    replicas = repl_corpus()
+    for _ in range(150 if ctx.tier == 'quick' else 1200):
+        replicas.append(gen_repl_case(rng))
+    _explore_replicas(ctx, replicas)
+    ctx.count('replicate_cases', len(replicas))
 
 
 def replay(ctx, path):
@@ -1441,7 +1787,10 @@ def replay(ctx, path):
         return 2
     c = fix_stage_keys(c)
     c.setdefault('files', [])
-    if c.get('session'):
+    if c.get('replicate'):
+        c.setdefault('col', 'col')
+        _explore_replicas(ctx, [c])
+    elif c.get('session'):
         _explore_sessions(ctx, [c])
     else:
         _explore(ctx, [c])
